@@ -13,13 +13,13 @@ from ..util import Res, chunks, rng_for, short_hash
 ID = "C12"
 LEVEL = "exploration"
 RULE = ("token sequences over {start, end, licence tag, copyright tag, contributor tag, plain text, newline}: every "
-        "sequence up to length N (N=4 quick, N=6 thorough) in 4 renderings (commented/bare x newline-/space-joined), plus "
+        "sequence up to length N (N=4 quick, N=7 thorough) in 4 renderings (commented/bare x newline-/space-joined), plus "
         "seeded random sequences up to length 20; non-trivial = contains at least one marker and at least one tag; "
         "distinct = distinct (sequence, rendering)")
 ASSUMPTIONS = ["licence values are LicenseRef- identifiers that license_expression parses",
                "when markers share a line with tags, the expected tag set is the real extractor applied to the "
                "reference-filtered text (only the filter is under test there)"]
-MIN_NONTRIVIAL = {"quick": 1000, "thorough": 100000}
+MIN_NONTRIVIAL = {"quick": 1000, "thorough": 500000}
 
 START = "REUSE-Ignore" + "Start"
 END = "REUSE-Ignore" + "End"
@@ -122,15 +122,15 @@ def check_text(text, exp, res, extract_mod, label):
 
 
 def generate(tier, seed):
-    N = 4 if tier == "quick" else 6
+    N = 4 if tier == "quick" else 7
     cases = []
     for length in range(1, N + 1):
         for lo, hi in chunks(0, 7 ** length, 400):
             cases.append({"kind": "enum", "len": length, "lo": lo, "hi": hi})
-    nrand = 5000 if tier == "quick" else 500000
+    nrand = 5000 if tier == "quick" else 1000000
     for k, (lo, hi) in enumerate(chunks(0, nrand, 500)):
         cases.append({"kind": "rand", "k": k, "n": hi - lo})
-    ndisk = 8 if tier == "quick" else 60
+    ndisk = 8 if tier == "quick" else 300
     for k in range(ndisk):
         cases.append({"kind": "disk", "k": k, "n": 15})
     return cases
